@@ -663,6 +663,7 @@ func checkC17(c *Ctx) string {
 	}
 	c.Floor(r5, nwired, 9, "Checker methods whose wiring through a message was followed")
 
+	checkQueueCandidateIsOldest(c, "C17.6 K4c a later message is delivered only when it is the oldest of its id")
 	return "Static shape of the checker's message queue. Queue: every access of PriorityQueue.items is under PriorityQueue.lock (unexported helpers are checked at their call sites), each Cond.Wait is inside a " +
 		"conditional for loop, both conditions are bound to the queue's lock, and each change of the buffer signals the condition the other side waits on. Use in db19: at every Put whose message literal carries a " +
 		"*CkTran/*UpdateTran the transaction-id argument is .start of that same value, all other messages use the constant 0; the four priority constants are ordered, the stop message alone has the lowest, " +
